@@ -24,7 +24,7 @@ type PipeScen struct {
 	Reads   []int         `json:"reads,omitempty"`
 	NoMulti bool          `json:"no_multi,omitempty"` // gzip: Multistream(false)
 	StopAt  int           `json:"stop_at"`            // index of the flush point after which the source misbehaves; -1 = none
-	After   string        `json:"after,omitempty"`    // "block" | "error" | "garbage"
+	After   string        `json:"after,omitempty"`    // "block" | "error" | "garbage" | "garbage_joined"
 	Garbage scen.DataSpec `json:"garbage,omitempty"`
 	// Synth: instead of a Writer history the producer sends a synthesised
 	// stream (block shapes no Writer of fastgo or the stdlib emits, e.g. a
@@ -225,10 +225,37 @@ func runPipe(ps *PipeScen, sched kern.SchedSpec, fastReader bool, keep bool) (*p
 	// evaluate is the invariant: with everything up to point `next` delivered
 	// and the consumer unable to proceed (blocked on the source, or finished),
 	// it must have returned exactly the data written before that point.
+	joinedAt := -1
+	release := func(i int) {
+		pipe.Released = res.points[i].off
+		res.released = pipe.Released
+		stopAt := ps.StopAt
+		if stopAt >= len(res.points) {
+			stopAt = len(res.points) - 1
+		}
+		if ps.After == "garbage_joined" && i == stopAt {
+			// unrelated bytes follow the flush point in the very same delivery
+			pipe.Garbage, pipe.Join = ps.Garbage.Bytes(), true
+			res.postFired = true
+			joinedAt = i
+		}
+	}
 	evaluate := func() bool {
 		p := res.points[next]
 		res.atPoint = next
 		want := res.model[:p.model]
+		if next == joinedAt && !p.final {
+			// whatever the Reader makes of the unrelated bytes, the data before the flush point is due first
+			if bytes.HasPrefix(res.out, want) {
+				return true
+			}
+			if bytes.HasPrefix(want, res.out) {
+				res.oracle, res.violation = "lost_before_garbage", fmt.Sprintf("the delivery that completed flush point %d (%d data bytes) also carried unrelated bytes; the Reader returned only %d bytes (err=%v, done=%v)", next, p.model, len(res.out), res.err, res.done)
+				return false
+			}
+			res.oracle, res.violation = "wrong_bytes", fmt.Sprintf("at flush point %d (unrelated bytes in the same delivery): output is not the data written: %s", next, diffAt(res.out, want))
+			return false
+		}
 		if !bytes.HasPrefix(want, res.out) && !bytes.HasPrefix(res.out, want) {
 			res.oracle, res.violation = "wrong_bytes", fmt.Sprintf("at flush point %d (offset %d): output is not the data written: %s", next, p.off, diffAt(res.out, want))
 			return false
@@ -259,12 +286,15 @@ func runPipe(ps *PipeScen, sched kern.SchedSpec, fastReader bool, keep bool) (*p
 			if next >= len(res.points) {
 				return false
 			}
-			pipe.Released = res.points[next].off
-			res.released = pipe.Released
+			release(next)
 			phase = 1
 			return true
 		}
 		if !evaluate() {
+			phase = 3
+			return false
+		}
+		if next == joinedAt {
 			phase = 3
 			return false
 		}
@@ -294,8 +324,7 @@ func runPipe(ps *PipeScen, sched kern.SchedSpec, fastReader bool, keep bool) (*p
 			phase = 3
 			return false
 		}
-		pipe.Released = res.points[next].off
-		res.released = pipe.Released
+		release(next)
 		phase = 1
 		return true
 	}
@@ -366,7 +395,13 @@ func (c11) Gen(r *kern.Rng, tier string, idx int) *Trace {
 	if ps.Synth != nil {
 		nflush = 1 + r.Intn(3) // upper bound unknown before synthesis; StopAt is clamped at run time
 	}
-	switch r.Weighted(3, 3, 2, 2) {
+	switch r.Weighted(3, 3, 2, 2, 2) {
+	case 4: // unrelated bytes in the same delivery as the end of the prefix
+		ps.StopAt, ps.After = r.Intn(nflush), "garbage_joined"
+		ps.Garbage = scen.DataSpec{Kind: r.PickS("rand", "zeros", "text", "allbytes"), Seed: r.Uint64(), Len: r.Pick(1, 8, 100, 5000)}
+		if r.Pct(40) {
+			ps.Garbage = scen.DataSpec{Lit: []byte{0xff, 0xff, 0xff, 0xff, 0xff, 0xff, 0xff, 0xff}, Len: 8} // reserved block type
+		}
 	case 0: // run through all points, stall at the end without EOF
 		ps.StopAt, ps.After = nflush-1, "block"
 	case 1:
@@ -450,7 +485,7 @@ func (c11) Exec(tr *Trace, keep bool) *Outcome {
 			return o
 		}
 		if eofDue && ps.After != "block" && res.kind != "EOF" {
-			o.violate(tr, "C11.wrong_error", fmt.Sprintf("the whole stream was delivered, then the source %s; the Reader ended with %v instead of io.EOF", map[string]string{"error": "failed", "garbage": "delivered unrelated bytes"}[ps.After], res.err), feat)
+			o.violate(tr, "C11.wrong_error", fmt.Sprintf("the whole stream was delivered, then the source %s; the Reader ended with %v instead of io.EOF", map[string]string{"error": "failed", "garbage": "delivered unrelated bytes", "garbage_joined": "had delivered unrelated bytes together with its end"}[ps.After], res.err), feat)
 			return o
 		}
 	}
@@ -463,7 +498,7 @@ func (c11) Exec(tr *Trace, keep bool) *Outcome {
 			o.violate(tr, "C11.wrong_error", fmt.Sprintf("source failed after flush point %d; the Reader ended with %v instead of the source's error", res.atPoint, res.err), feat)
 		}
 	}
-	if ps.After == "garbage" && res.postFired {
+	if (ps.After == "garbage" || ps.After == "garbage_joined") && res.postFired {
 		if len(res.out) < len(want) || !bytes.Equal(res.out[:len(want)], want) {
 			o.violate(tr, "C11.wrong_bytes", "unrelated bytes after the flush point changed data already due: "+diffAt(res.out, want), feat)
 		}
